@@ -221,6 +221,10 @@ def run(ctx, widen=False):
     for a in short[::3]:
         for b in short[::7]:
             lines.append(f"ls\tinterleave|{S(a)}|{S(b)}"); exp.append(safe(lambda: E.interleave(list(a), list(b), CTX)))
+    for l in [x for x in lists if len(x) <= 5][: (400 if thorough else 80)]:
+        lines.append(f"ls\tpowerset|{S(l)}|"); exp.append(safe(lambda: E.powerset(list(l), CTX)))
+        if l:
+            lines.append(f"ls\tpermutations|{S(l)}|"); exp.append(safe(lambda: E.permutations(list(l), CTX)))
     out = ctx.driver(lines)
     ctx.count("corr:list-models", len(lines))
     for l, e, o in zip(lines, exp, out):
